@@ -4,6 +4,7 @@ from gen import SeqGen
 
 ID = "C07"
 HEAP_SUMMARY = True      # end every program with the reference-level observation (BB.Model.Heap vs id() walk)
+UNIVERSAL_EVERY = 8      # every n-th case is a feature-rich random program (props/universal.py)
 LEAN_MODULE = "BB.Properties.C07"
 QUICK_N = 500
 THOROUGH_N = 4000
